@@ -547,6 +547,15 @@ type lmAn struct {
 	// it, given what the load path already rejected (axis -> accepted values).
 	preAcc map[int][]int64
 	frs    []*lmFrame // every frame walked
+	// loose: comparisons inside an expanded predicate that match no clause
+	loose []lmLoose
+}
+
+type lmLoose struct {
+	fr   *lmFrame
+	iff  *ssa.If
+	edge int
+	t    lmTriple
 }
 
 func (an *lmAn) cl(v ssa.Value, fr *lmFrame) *lmVal {
@@ -1031,6 +1040,26 @@ func (an *lmAn) walk(fr *lmFrame) {
 				}
 				A, B, op, ok := an.rel(x.Cond, fr)
 				if !ok {
+					// a pure predicate (or a boolean combination): each edge
+					// on which the condition is a disjunction of comparisons
+					// yields one candidate per comparison
+					if e := an.boolExpr(x.Cond, fr, 0); e != nil {
+						for edge := 0; edge < 2; edge++ {
+							ts, ok := lmDisj(e, edge == 0)
+							if !ok {
+								continue
+							}
+							for _, t := range ts {
+								m, _, _ := an.match(t.A, t.B, t.op)
+								if m == nil {
+									an.loose = append(an.loose, lmLoose{fr, x, edge, t})
+									continue
+								}
+								an.cands = append(an.cands, &lmCand{clause: m.clause, fr: fr, iff: x, edge: edge, atom: m.atom, loop: m.loop, a: m.a, prev: m.prev, note: m.note,
+									desc: fmt.Sprintf("%s %s %s", t.A, t.op, t.B)})
+							}
+						}
+					}
 					continue
 				}
 				m, ncl, nm := an.match(A, B, op)
@@ -1071,6 +1100,9 @@ func (an *lmAn) walk(fr *lmFrame) {
 					}
 					if !isOwn(P, g) || g.Blocks == nil || fr.depth >= 3 || lmOnStack(fr, g) {
 						continue
+					}
+					if an.boolExpr(x, fr, 0) != nil {
+						continue // a pure predicate: expanded where its result is branched on
 					}
 					env := map[*ssa.Parameter]*lmVal{}
 					for i, a := range x.Call.Args {
@@ -2124,6 +2156,7 @@ type lmLoader struct {
 	opaque []string         // node sources the rule cannot follow: nothing is assumed
 	seeded int
 	cands  []*lmCand // the gated candidates of the decoding path (for ROOTEXACT)
+	loose  []lmLoose
 	frs    []*lmFrame
 }
 
@@ -2165,6 +2198,7 @@ func (an *lmAn) loaderOf(nc *ssa.Call) *lmLoader {
 					L.opaque = append(L.opaque, "a second decoding path in "+ir.FuncName(g))
 					continue
 				}
+				L.loose = append(L.loose, sub.loose...)
 				for _, cd := range sub.cands {
 					sub.gate(cd)
 					L.cands = append(L.cands, cd)
@@ -3024,6 +3058,24 @@ func runROOTEXACT(c *Ctx) {
 		default:
 			c.Violation(cd.fr.fn, pos, "stronger than clause "+name,
 				fmt.Sprintf("the root check rejects when `%s`, which also holds for %s: a root that conforms to the configuration (one MakeRoot produced) is refused by LoadMast; the clause is exactly %s", cd.desc, lmOverText(cd.clause, x), name))
+		}
+	}
+	// (1b) comparisons of an expanded predicate that belong to no clause
+	loose := append([]lmLoose(nil), an.loose...)
+	for _, nc := range an.nodeCalls {
+		loose = append(loose, an.loaderOf(nc).loose...)
+	}
+	for _, lo := range loose {
+		if k, _ := lpRejects(P, lo.iff.Block().Succs[lo.edge]); k == lpErrNil {
+			continue
+		}
+		pos := P.InstrPos(lo.iff)
+		text := fmt.Sprintf("%s %s %s", lo.t.A, lo.t.op, lo.t.B)
+		if (lo.t.A.k == lmLen && lo.t.B.k == lmConst) || (lo.t.B.k == lmLen && lo.t.A.k == lmConst) {
+			c.Violation(lo.fr.fn, pos, "rejects on "+text,
+				fmt.Sprintf("the node check rejects when `%s` (through a predicate helper): a condition on the number of entries alone, which no listed rejection covers: a node the writer stored cannot be loaded", text))
+		} else {
+			c.Undecided(lo.fr.fn, pos, "rejecting branch `"+text+"`", "a comparison inside a predicate helper that the root check branches on matches no listed rejection; whether it refuses conforming roots is not decided")
 		}
 	}
 	// (3) LoadMast's own body and its helpers
@@ -4291,4 +4343,149 @@ func lmFreshSlice(v ssa.Value, d int) bool {
 		return true
 	}
 	return false
+}
+
+// ---- pure predicates ---------------------------------------------------------------
+
+// lmBool is a boolean expression over classified comparisons.
+type lmBool struct {
+	kind string // atom and or not
+	kids []*lmBool
+	A, B *lmVal
+	op   token.Token
+}
+
+type lmTriple struct {
+	A, B *lmVal
+	op   token.Token
+}
+
+// boolExpr builds the boolean expression of v: comparisons, !, the phi forms
+// go/ssa gives && and ||, and calls of private functions with a single bool
+// result whose single return is such an expression over their parameters
+// (the arguments are substituted through the frame environment).
+func (an *lmAn) boolExpr(v ssa.Value, fr *lmFrame, depth int) *lmBool {
+	if depth > 6 {
+		return nil
+	}
+	switch x := v.(type) {
+	case *ssa.UnOp:
+		if x.Op == token.NOT {
+			if k := an.boolExpr(x.X, fr, depth+1); k != nil {
+				return &lmBool{kind: "not", kids: []*lmBool{k}}
+			}
+		}
+	case *ssa.BinOp:
+		if lpNegOp(x.Op) != token.ILLEGAL {
+			return &lmBool{kind: "atom", A: an.cl(x.X, fr), B: an.cl(x.Y, fr), op: x.Op}
+		}
+	case *ssa.Call:
+		g := ir.Callee(x.Call)
+		if g == nil || !isOwn(an.c.P, g) || g.Blocks == nil || lmOnStack(fr, g) || fr.depth >= 3 {
+			return nil
+		}
+		res := g.Signature.Results()
+		if res.Len() != 1 || !types.Identical(res.At(0).Type().Underlying(), types.Typ[types.Bool]) {
+			return nil
+		}
+		rets := ir.Returns(g)
+		if len(rets) != 1 {
+			return nil
+		}
+		// pure: no calls other than len/cap, no stores
+		for _, b := range g.Blocks {
+			for _, ins := range b.Instrs {
+				switch y := ins.(type) {
+				case *ssa.Store, *ssa.Go, *ssa.Defer, *ssa.Panic:
+					return nil
+				case *ssa.Call:
+					if _, isB := y.Call.Value.(*ssa.Builtin); !isB {
+						return nil
+					}
+				}
+			}
+		}
+		env := map[*ssa.Parameter]*lmVal{}
+		for i, a := range x.Call.Args {
+			if i < len(g.Params) {
+				if c := an.cl(a, fr); c.k != lmUnknown {
+					env[g.Params[i]] = c
+				}
+			}
+		}
+		sub := &lmFrame{fn: g, env: env, parent: fr, site: x, depth: fr.depth + 1}
+		return an.boolExpr(rets[0].Results[0], sub, depth+1)
+	case *ssa.Phi:
+		if x.Comment != "&&" && x.Comment != "||" {
+			return nil
+		}
+		isAnd := x.Comment == "&&"
+		out := &lmBool{kind: "or"}
+		if isAnd {
+			out.kind = "and"
+		}
+		blk := x.Block()
+		for i, e := range x.Edges {
+			pred := blk.Preds[i]
+			if cv, isC := ir.ConstBool(e); isC && cv == !isAnd {
+				// short-circuit edge: the term is the pred's branch condition
+				if len(pred.Instrs) == 0 || len(pred.Succs) != 2 {
+					return nil
+				}
+				iff, ok := pred.Instrs[len(pred.Instrs)-1].(*ssa.If)
+				if !ok {
+					return nil
+				}
+				t := an.boolExpr(iff.Cond, fr, depth+1)
+				if t == nil {
+					return nil
+				}
+				// && : the edge into the phi is taken when the term is false
+				// || : when the term is true
+				onTrue := pred.Succs[0] == blk
+				if onTrue == isAnd {
+					t = &lmBool{kind: "not", kids: []*lmBool{t}}
+				}
+				out.kids = append(out.kids, t)
+				continue
+			}
+			t := an.boolExpr(e, fr, depth+1)
+			if t == nil {
+				return nil
+			}
+			out.kids = append(out.kids, t)
+		}
+		return out
+	}
+	return nil
+}
+
+// lmDisj: the comparisons c1..cn such that (e == pol) ⇔ c1 ∨ … ∨ cn, if the
+// expression has that form.
+func lmDisj(e *lmBool, pol bool) ([]lmTriple, bool) {
+	switch e.kind {
+	case "atom":
+		op := e.op
+		if !pol {
+			op = lpNegOp(op)
+		}
+		return []lmTriple{{e.A, e.B, op}}, true
+	case "not":
+		return lmDisj(e.kids[0], !pol)
+	case "and", "or":
+		isOr := e.kind == "or"
+		if isOr != pol && len(e.kids) != 1 {
+			return nil, false // a conjunction
+		}
+		var out []lmTriple
+		for _, k := range e.kids {
+			ts, ok := lmDisj(k, pol)
+			if !ok {
+				return nil, false
+			}
+			out = append(out, ts...)
+		}
+		return out, true
+	}
+	return nil, false
 }
